@@ -268,18 +268,26 @@ class PolyOneOverXRect(PolyGenerator):
             return_scale=False,
             chebyshev_basis=False):
 
-        coefs_invert, scale1 = PolyOneOverX().generate(2 * kappa,
-                                                       epsilon,
-                                                       ensure_bounded,
-                                                       return_scale=True,
-                                                       chebyshev_basis=chebyshev_basis)
+        res_invert = PolyOneOverX().generate(2 * kappa,
+                                             epsilon,
+                                             ensure_bounded=ensure_bounded,
+                                             return_scale=True,
+                                             chebyshev_basis=chebyshev_basis)
 
-        coefs_rect, scale2 = PolyRect().generate(degree,
-                                                 delta,
-                                                 kappa,
-                                                 ensure_bounded,
-                                                 return_scale=True,
-                                                 chebyshev_basis=chebyshev_basis)
+        res_rect = PolyRect().generate(degree,
+                                       delta,
+                                       kappa,
+                                       epsilon,
+                                       ensure_bounded=ensure_bounded,
+                                       return_scale=True,
+                                       chebyshev_basis=chebyshev_basis)
+
+        if ensure_bounded:
+            coefs_invert, scale1 = res_invert
+            coefs_rect, scale2 = res_rect
+        else:
+            coefs_invert, scale1 = res_invert, 1
+            coefs_rect, scale2 = res_rect, 1
 
         poly_invert = np.polynomial.Polynomial(coefs_invert)
         poly_rect = np.polynomial.Polynomial(coefs_rect)
